@@ -4,9 +4,15 @@
    [lex L D input] is the model (coq/Lexer.v) of the token stream
    lexer.New(input).Next() ... up to the first EOF, for the rune list
    input = []rune(source), with unicode.IsLetter = L and unicode.IsDigit = D.
-   All theorems hold for EVERY rune list (no validity, size or alphabet
-   restriction) and EVERY oracle pair (L, D); the one hypothesis ever made on
-   the oracles is [oracle_ok]: U+0000 is neither a letter nor a digit.
+   It is the lexer as it is since commit d745e6e (lookAt returns a sentinel
+   that is not a rune beyond the end of the input).  All theorems hold for
+   EVERY rune list (no validity, size or alphabet restriction) and EVERY oracle
+   pair (L, D), without any hypothesis on the oracles.
+
+   [lex_before_fix] is the lexer before that commit, in which a U+0000 of the
+   source was taken for the end of the input; it is kept with its refuting
+   witness as regression lemmas (C03_*_before_fix), the witness is replayed on
+   the implementation by harness/c03.go on every run.
 
    The parser part of C03 (parse_total, errors_located) has no Gallina model
    at this stage: it is checked by the property oracle of harness/c03.go on
@@ -22,7 +28,7 @@ Open Scope N_scope.
    rune plus EOF *)
 Theorem C03_lex_total : forall L D (input : list N),
   lex L D input <> [] /\ (List.length (lex L D input) <= S (List.length input))%nat.
-Proof. intros L D. exact (lex_gen_total L D true). Qed.
+Proof. intros L D. exact (lex_gen_total L D false). Qed.
 Print Assumptions C03_lex_total.
 
 (* every token (EOF included): its Offset is an offset of the input, and its
@@ -33,39 +39,55 @@ Theorem C03_lex_positions : forall L D (input : list N),
             t_off t = N.of_nat k /\ (k <= List.length input)%nat /\
             (t_line t, t_col t) = pos_of_offset input k)
          (lex L D input).
-Proof. intros L D. exact (lex_gen_positions L D true). Qed.
+Proof. intros L D. exact (lex_gen_positions L D false). Qed.
 Print Assumptions C03_lex_positions.
 
-(* the token spans tile the input up to the first U+0000: cutting the input at
-   the Offsets of consecutive tokens gives non-empty lexemes whose
-   concatenation is that part of the input, the Offsets are the running sums
-   of the lexeme lengths starting at 0 (so every rune belongs to exactly one
-   token: the lexer skips nothing, whitespace, comments and illegal runes are
-   tokens), and every token describes its lexeme ([lexeme_ok]: an operator /
-   delimiter / NL / keyword token's lexeme is the format string of its type;
-   IDENT, NUM_LIT and COMMENT carry the lexeme as literal; STRING_LIT carries
-   strconv.Unquote of it; ILLEGAL is one rune that is no letter, digit or
-   operator, or a quoted lexeme that Unquote rejects; WS is a blank or tab
-   followed by blanks, tabs and carriage returns). *)
+(* the token spans tile the WHOLE input: cutting the input at the Offsets of
+   consecutive tokens gives non-empty lexemes whose concatenation is the input,
+   the Offsets are the running sums of the lexeme lengths starting at 0 (so
+   every rune belongs to exactly one token: the lexer skips nothing,
+   whitespace, comments and illegal runes are tokens), and every token
+   describes its lexeme ([lexeme_ok]: an operator / delimiter / NL / keyword
+   token's lexeme is the format string of its type; IDENT, NUM_LIT and COMMENT
+   carry the lexeme as literal; STRING_LIT carries strconv.Unquote of it;
+   ILLEGAL is one rune that is no letter, digit or operator, or a quoted lexeme
+   that Unquote rejects; WS is a blank or tab followed by blanks, tabs and
+   carriage returns). *)
 Theorem C03_lex_partition : forall L D (input : list N),
-  oracle_ok L D ->
   let toks := lex L D input in
   let lx := lexemes_of input toks in
-  concat lx = upto_nul input /\
+  concat lx = input /\
   Forall (fun x => x <> []) lx /\
   map t_off toks = 0 :: ends 0 lx /\
-  Forall2 (lexeme_ok L D true) (removelast toks) lx.
-Proof. intros L D input Ho. exact (lex_gen_partition L D true input (fun _ => Ho)). Qed.
+  Forall2 (lexeme_ok L D false) (removelast toks) lx.
+Proof.
+  intros L D input.
+  exact (lex_gen_partition4 L D false input (fun H => False_ind _ (Bool.diff_false_true H))).
+Qed.
 Print Assumptions C03_lex_partition.
 
-(* the stream ends with the only EOF token, whose Offset is the length of the
-   input up to the first U+0000 *)
+(* maximal munch: in the input, the rune that follows the lexeme of a WS token
+   is no blank, tab or CR; after a NUM_LIT no digit or '.'; after an IDENT or
+   keyword no letter, '_' or Unicode digit; after a COMMENT a newline or the
+   end of the input ([rests input lx] lists what follows each lexeme) *)
+Theorem C03_lex_maximal_munch : forall L D (input : list N),
+  let toks := lex L D input in
+  Forall2 (maximal_munch L D false) (removelast toks) (rests input (lexemes_of input toks)).
+Proof.
+  intros L D input.
+  exact (lex_gen_maximal_munch L D false input (fun H => False_ind _ (Bool.diff_false_true H))).
+Qed.
+Print Assumptions C03_lex_maximal_munch.
+
+(* the stream ends with the only EOF token, whose Offset is the length of the input *)
 Theorem C03_lex_ends_with_eof : forall L D (input : list N),
-  oracle_ok L D ->
   exists ts e, lex L D input = ts ++ [e] /\ t_type e = T_EOF /\
                Forall (fun t => t_type t <> T_EOF) ts /\
-               t_off e = N.of_nat (List.length (upto_nul input)).
-Proof. intros L D input Ho. exact (lex_gen_ends_with_eof L D true input (fun _ => Ho)). Qed.
+               t_off e = N.of_nat (List.length input).
+Proof.
+  intros L D input.
+  exact (lex_gen_ends_with_eof L D false input (fun H => False_ind _ (Bool.diff_false_true H))).
+Qed.
 Print Assumptions C03_lex_ends_with_eof.
 
 (* an identifier-shaped lexeme is a keyword token iff it is in the keyword
@@ -75,11 +97,11 @@ Print Assumptions C03_lex_ends_with_eof.
    if x is not in the table then t is IDENT with literal x; and if t's type is
    a keyword type at all then the table maps x to it *)
 Theorem C03_keyword_iff : forall L D (t : token) (x : list N),
-  lexeme_ok L D true t x -> ident_shaped L D true x ->
+  lexeme_ok L D false t x -> ident_shaped L D false x ->
   (forall k, In (x, k) keywords -> t_type t = k /\ t_lit t = []) /\
   ((forall k, ~ In (x, k) keywords) -> t_type t = T_IDENT /\ t_lit t = x) /\
   (is_keyword_type (t_type t) = true -> In (x, t_type t) keywords).
-Proof. intros L D. exact (keyword_iff_lexeme L D true). Qed.
+Proof. intros L D. exact (keyword_iff_lexeme L D false). Qed.
 Print Assumptions C03_keyword_iff.
 
 (* facts about the regenerated table itself: distinct keys; every keyword's
@@ -106,66 +128,49 @@ Theorem C03_unquote_unterminated : forall body : list N,
 Proof. exact unquote_unterminated. Qed.
 Print Assumptions C03_unquote_unterminated.
 
-(* ---------- the defect the model mirrors, and the corrected lexer ---------- *)
+(* ---------- regression lemmas: the lexer before commit d745e6e ---------- *)
 
 Definition ascii_letter (c : N) : bool := ((65 <=? c) && (c <=? 90)) || ((97 <=? c) && (c <=? 122)).
 Definition ascii_digit (c : N) : bool := (48 <=? c) && (c <=? 57).
 
-(* the lexer does NOT tile every input: a U+0000 is taken for the end of the
-   input and what follows is never tokenised (a, NUL, b: one IDENT and EOF at
-   offset 1).  Replayed on lexer.New by harness/c03.go (key lex-nul-truncates-input). *)
-Theorem C03_lex_tiles_whole_input_refuted : exists L D input,
-  oracle_ok L D /\ concat (lexemes_of input (lex L D input)) <> input /\
-  map (fun t => (tt_name (t_type t), t_off t)) (lex L D input) =
+(* before the fix the lexer did NOT tile every input: a U+0000 was taken for
+   the end of the input and what followed was never tokenised (a, NUL, b: one
+   IDENT and EOF at offset 1).  harness/c03.go replays the witness on
+   lexer.New on every run and reports lex-nul-truncates-input if it reproduces. *)
+Theorem C03_lex_before_fix_tiles_whole_input_refuted : exists L D input,
+  oracle_ok L D /\ concat (lexemes_of input (lex_before_fix L D input)) <> input /\
+  map (fun t => (tt_name (t_type t), t_off t)) (lex_before_fix L D input) =
     [(tt_name T_IDENT, 0); (tt_name T_EOF, 1)].
 Proof.
   exists ascii_letter, ascii_digit, [97; 0; 98]. split; [split; reflexivity|].
   split; [vm_compute; discriminate | vm_compute; reflexivity].
 Qed.
-Print Assumptions C03_lex_tiles_whole_input_refuted.
+Print Assumptions C03_lex_before_fix_tiles_whole_input_refuted.
 
-(* the corrected lexer (lookAt returns a non-rune sentinel beyond the end;
-   proposed_fixes/C03-lex-nul-eof.diff) tiles the WHOLE input, with no
-   hypothesis on the oracles *)
-Theorem C03_lex_fixed_partition : forall L D (input : list N),
-  let toks := lex_fixed L D input in
+(* what did hold before the fix: the tiling of the input up to the first
+   U+0000, provided U+0000 is neither a letter nor a digit for the oracles *)
+Theorem C03_lex_before_fix_partition : forall L D (input : list N),
+  oracle_ok L D ->
+  let toks := lex_before_fix L D input in
   let lx := lexemes_of input toks in
-  concat lx = input /\
+  concat lx = upto_nul input /\
   Forall (fun x => x <> []) lx /\
   map t_off toks = 0 :: ends 0 lx /\
-  Forall2 (lexeme_ok L D false) (removelast toks) lx.
-Proof.
-  intros L D input.
-  exact (lex_gen_partition L D false input (fun H => False_ind _ (Bool.diff_false_true H))).
-Qed.
-Print Assumptions C03_lex_fixed_partition.
+  Forall2 (lexeme_ok L D true) (removelast toks) lx.
+Proof. intros L D input Ho. exact (lex_gen_partition4 L D true input (fun _ => Ho)). Qed.
+Print Assumptions C03_lex_before_fix_partition.
 
-Theorem C03_lex_fixed_ends_with_eof : forall L D (input : list N),
-  exists ts e, lex_fixed L D input = ts ++ [e] /\ t_type e = T_EOF /\
-               Forall (fun t => t_type t <> T_EOF) ts /\
-               t_off e = N.of_nat (List.length input).
-Proof.
-  intros L D input.
-  exact (lex_gen_ends_with_eof L D false input (fun H => False_ind _ (Bool.diff_false_true H))).
-Qed.
-Print Assumptions C03_lex_fixed_ends_with_eof.
-
-Theorem C03_lex_fixed_positions : forall L D (input : list N),
-  Forall (fun t => exists k : nat,
-            t_off t = N.of_nat k /\ (k <= List.length input)%nat /\
-            (t_line t, t_col t) = pos_of_offset input k)
-         (lex_fixed L D input).
-Proof. intros L D. exact (lex_gen_positions L D false). Qed.
-Print Assumptions C03_lex_fixed_positions.
+(* the fix changed nothing for sources without U+0000 *)
+Theorem C03_lex_before_fix_agrees_without_nul : forall L D (input : list N),
+  Forall (fun c => c <> 0) input -> lex_before_fix L D input = lex L D input.
+Proof. exact lex_before_fix_agrees. Qed.
+Print Assumptions C03_lex_before_fix_agrees_without_nul.
 
 (* ---------- non-vacuity ---------- *)
 
-(* the hypothesis of C03_lex_partition is satisfiable, and the model computes:
+(* the model computes:
    x := "a\n" // c <newline> if   lexes to IDENT WS DECLARE WS STRING_LIT WS COMMENT NL IF EOF
    with the string unquoted and line/col advancing over the newline *)
-Example C03_ex_oracle_ok : oracle_ok ascii_letter ascii_digit.
-Proof. split; reflexivity. Qed.
-
 Example C03_ex_lex :
   map (fun t => (tt_name (t_type t), t_lit t, (t_off t, t_line t, t_col t)))
       (lex ascii_letter ascii_digit
@@ -186,18 +191,35 @@ Example C03_ex_bad_string :
 Proof. vm_compute. reflexivity. Qed.
 
 (* keyword_iff is not vacuous: "if" is identifier-shaped and in the table *)
-Example C03_ex_keyword : ident_shaped ascii_letter ascii_digit true [105; 102] /\ In ([105; 102], T_IF) keywords.
+Example C03_ex_keyword : ident_shaped ascii_letter ascii_digit false [105; 102] /\ In ([105; 102], T_IF) keywords.
 Proof.
   split.
   - exists 105, [102]. repeat split; try reflexivity. repeat constructor.
   - unfold keywords. simpl. tauto.
 Qed.
 
-(* the corrected lexer on the refuting input: IDENT a, ILLEGAL NUL, IDENT b, EOF at 3 *)
-Example C03_ex_fixed_nul :
-  map (fun t => (tt_name (t_type t), t_off t)) (lex_fixed ascii_letter ascii_digit [97; 0; 98]) =
-  [(tt_name T_IDENT, 0); (tt_name T_ILLEGAL, 1); (tt_name T_IDENT, 2); (tt_name T_EOF, 3)].
-Proof. vm_compute. reflexivity. Qed.
+(* the lexer on the witness that refuted its predecessor: IDENT a, ILLEGAL NUL, IDENT b, EOF at 3;
+   a NUL inside a comment or a string literal is an ordinary rune *)
+Example C03_ex_nul :
+  map (fun t => (tt_name (t_type t), t_off t)) (lex ascii_letter ascii_digit [97; 0; 98]) =
+  [(tt_name T_IDENT, 0); (tt_name T_ILLEGAL, 1); (tt_name T_IDENT, 2); (tt_name T_EOF, 3)] /\
+  map (fun t => (tt_name (t_type t), t_lit t)) (lex ascii_letter ascii_digit [34; 0; 34; 47; 47; 0]) =
+  [(tt_name T_STRING_LIT, [0]); (tt_name T_COMMENT, [47; 47; 0]); (tt_name T_EOF, [])].
+Proof. split; vm_compute; reflexivity. Qed.
+
+(* the hypotheses of the before-fix lemmas are satisfiable *)
+Example C03_ex_oracle_ok : oracle_ok ascii_letter ascii_digit /\ Forall (fun c => c <> 0) [97; 32; 98].
+Proof. split; [split; reflexivity | repeat constructor; discriminate]. Qed.
+
+(* maximal munch is not vacuous: in "ab1 12.5x" the IDENT ab1 is followed by a blank, the
+   WS by a digit, the NUM_LIT 12.5 by the letter x *)
+Example C03_ex_munch :
+  let input := [97; 98; 49; 32; 49; 50; 46; 53; 120] in
+  map (fun t => tt_name (t_type t)) (lex ascii_letter ascii_digit input) =
+    [tt_name T_IDENT; tt_name T_WS; tt_name T_NUM_LIT; tt_name T_IDENT; tt_name T_EOF] /\
+  rests input (lexemes_of input (lex ascii_letter ascii_digit input)) =
+    [[32; 49; 50; 46; 53; 120]; [49; 50; 46; 53; 120]; [120]; []].
+Proof. split; vm_compute; reflexivity. Qed.
 
 (* C03_unquote_plain / C03_unquote_unterminated are not vacuous *)
 Example C03_ex_unquote_hyps :
